@@ -186,7 +186,14 @@ class Ctx:
                 e.rewrite(**dict(rw, optional=True))
             e.make_pub()
             pre = ''
-            if kw == 'const':
+            if kw in ('struct', 'enum'):
+                names = e.derives()
+                if kw == 'struct':
+                    e.pub_fields()
+                if names:
+                    pre = '#[derive(%s)]\n' % ', '.join(names)
+                e.log('AUTO', 'type introduced by the edit auto-included')
+            elif kw == 'const':
                 if re.search(r'=\s*(-?\d[\d_]*(?:[ui](?:8|16|32|64|128|size))?|true|false)\s*;\s*$', e.text):
                     e.log('AUTO', 'constant with a literal value auto-included as is')   # value visible to the verifier: not a taint
                 else:
